@@ -19,7 +19,7 @@ def main():
     m_rej = c11.exec_map({"id": "map-reject-ok", "op": "map", "n": 3, "items": two, "seed": 0})
     r_ok = c11.exec_run({"id": "run-ok", "op": "run", "n": 3, "items": dict_nn, "seed": 5,
                          "run": {"shape": [3, 4, 2], "rank": 2, "init": "random", "outer": 2, "inner": 10, "data": "signed",
-                                 "fixed": [0], "via": "class", "scale": -30, "dtype": "float32"}})
+                                 "fixed": [0], "via": "class", "scale": 0, "dtype": "float32", "tol": "default"}})
     p_ok = c11.exec_prox({"id": "prox-ok", "op": "prox", "n": 3, "items": dict_nn, "seed": 7,
                           "run": {"rows": 3, "cols": 2, "mode": 2, "data": "signed", "scale": -70, "dtype": "float64"}})
     evs = [m_ok, m_rej, r_ok, p_ok]
